@@ -33,7 +33,12 @@ def _common(obj, kind, mode, desc, rec):
     for a in obj.A:
         tmag *= float(np.linalg.norm(np.asarray(a, dtype=complex)))
     scale = max(n0, 1e-3 * tmag, 1e-300)
-    nrm = obj.orthonormalize(mode=mode)
+    # 'left' is the documented default of `mode`: half of the left-mode cases rely on it
+    if mode == 'left' and desc['seed'] % 2:
+        nrm = obj.orthonormalize()
+        rec.label('default_mode_argument')
+    else:
+        nrm = obj.orthonormalize(mode=mode)
     require(np.ndim(nrm) == 0 and np.isreal(nrm) and np.isfinite(nrm), 'returned factor is not a finite real scalar', nrm=repr(nrm))
     nrm = float(np.real(nrm))
     require(nrm >= 0, 'returned factor is negative', nrm=nrm)
